@@ -3,6 +3,7 @@ import os
 
 from .. import common
 from ..common import log
+from . import c04_stmt
 
 # family, segments usable for data with their granularity, statement templates
 # (documented family ids from doc/file-formats.md; word data is little endian in the code file)
@@ -79,8 +80,8 @@ def reserve_stmt(tgt, k):
     return {"intel": "\tds %d", "moto8": "\tdfs %d", "moto68k": "\tds.b %d", "pic": "\tres %d", "c30": "\tbss %d", "c25": "\tbss %d", "avr": "\tres %d"}[tgt["style"]] % k
 
 
-def gen_program(rng, size_class):
-    """returns (source text, request tail for the driver, stats)"""
+def gen_program(rng, size_class, end_kind=None):
+    """returns (source text, request tail for the driver, stats); end_kind: None (random) | "addr" | "plain" | "absent" """
     lines = []
     evs = []
     tgt = rng.choice(TARGETS)
@@ -206,12 +207,27 @@ def gen_program(rng, size_class):
                 pc = a
             evs.append("j:%d,%d,%d,%d" % (hdr, sid, gran, pc))
             stats["cpusw"] += 1
-    entry = None
-    if rng.random() < 0.4:
-        entry = rng.randrange(0, 0x10000)
+    # how the source ends: END <address> (entry record), END without operand, no END statement at all
+    if end_kind is None:
+        r = rng.random()
+        end_kind = "addr" if r < 0.35 else ("plain" if r < 0.55 else "absent")
+    endtok = "-"
+    if end_kind == "addr":
+        entry = rng.randrange(0, 0x10000) if rng.random() < 0.85 else rng.randrange(0x10000, 0x80000000)
         lines.append("\tend %d" % entry)
+        endtok = str(entry)
+    elif end_kind == "plain":
+        lines.append("\tend")
+        endtok = "e"
+    stats["end_" + end_kind] = 1
+    if end_kind != "absent" and rng.random() < 0.4:
+        # "Lines that eventually follow in the source file will be ignored"
+        hdr, sid, gran = ctx()
+        src_, _bs = data_stmt(rng, tgt, gran, 3 * gran, 3 * gran)
+        lines.append(src_)
+        stats["after_end"] = 1
     (hdr, sid, gran), pc0 = first
-    tail = "%d %d %d %d %s %s" % (hdr, sid, gran, pc0, entry if entry is not None else "-", " ".join(evs))
+    tail = "%d %d %d %d %s %s" % (hdr, sid, gran, pc0, endtok, " ".join(evs))
     stats["bytes"] = total
     return "\n".join(lines) + "\n", tail, stats
 
@@ -263,6 +279,18 @@ def gen_long_run(rng, which):
     return "\n".join(lines) + "\n", tail, dict(emits=len(evs) - 1, reserves=1, orgs=0, segsw=0, cpusw=0, bigstmt=0, bytes=total, longruns=1, phased=int(phase))
 
 
+def verdict_fields(ans):
+    return dict(x.split("=", 1) for x in ans.split() if "=" in x)
+
+
+def spec_ok(kv):
+    return kv.get("parse") == "ok" and kv.get("cells") == "eq" and kv.get("entry") == "eq" and kv.get("consistent") == "ok"
+
+
+def short(kv):
+    return " ".join("%s=%s" % (k, v) for k, v in kv.items() if k != "modelfile")
+
+
 def run(args):
     res = common.Result("C04", args.tier, args.seed, "proof")
     bdir, audit, proof_problems = common.standard_setup(res, "C04", ["FileFormat"])
@@ -271,8 +299,10 @@ def run(args):
     ok = not any(p.startswith("driver does not build") for p in proof_problems)
 
     # ---- correspondence (B) and spec-on-impl (C)
-    n_prog = {"quick": 260, "thorough": 3000}[args.tier]
+    quick = args.tier == "quick"
+    n_prog = 260 if quick else 3000
     rng = common.rng_for(args.seed, "C04")
+    rng2 = common.rng_for(args.seed, "C04-stmt")
     spec_fail = []
     corr_fail = []
     samples = []
@@ -280,81 +310,174 @@ def run(args):
     distinct = set()
     reqs = []
     metas = []
+    inc = os.path.join(common.REPO, "include")
     with common.Workdir("c04") as wd:
+        pool = c04_stmt.FilePool(rng2, wd, args.tier)
         # corpus first
-        progs = []
+        progs = []     # (source, request tail, stats, tag, names of the BINCLUDEd files)
         cdir = os.path.join(common.VERIF, "corpus", "C04")
         if os.path.isdir(cdir):
             for f in sorted(os.listdir(cdir)):
                 if f.endswith(".asm"):
                     src = open(os.path.join(cdir, f)).read()
                     tail = open(os.path.join(cdir, f[:-4] + ".req")).read().strip()
-                    progs.append((src, tail, dict(emits=0, reserves=0, orgs=0, segsw=0, cpusw=0, bigstmt=0, bytes=0), "corpus:" + f))
-        lr = ["320c25", "320c30", "68000", "68000"] if args.tier == "quick" else ["320c25", "320c30", "68000", "320c30"] * 8
+                    progs.append((src, tail, dict(emits=0, reserves=0, orgs=0, segsw=0, cpusw=0, bigstmt=0, bytes=0), "corpus:" + f, []))
+        lr = ["320c25", "320c30", "68000", "68000"] if quick else ["320c25", "320c30", "68000", "320c30"] * 8
         for i, which in enumerate(lr):
             src, tail, st = gen_long_run(rng, which)
-            progs.append((src, tail, st, "longrun:%d:%s" % (i, which)))
+            progs.append((src, tail, st, "longrun:%d:%s" % (i, which), []))
+        # statements that reach WriteBytes block by block / copy by copy
+        # (`q:`: above this cost estimate the driver takes the byte machine's file from theorem C04_refine, see Driver/C04.lean)
+        qtok = " q:%d" % (3000000 if quick else 30000000)
+        for i in range(14 if quick else 120):
+            src, tail, st, used = c04_stmt.gen_chunked(rng2, pool, args.tier, small_wide=(i % 7 == 6))
+            progs.append((src, tail + qtok, st, "binclude:%d" % i, used))
+        for i in range(6 if quick else 40):
+            src, tail, st, used = c04_stmt.gen_rept(rng2, TARGETS, data_stmt, reserve_stmt, args.tier)
+            progs.append((src, tail + qtok, st, "rept:%d" % i, used))
+        # sources for the joint runs (each is also judged alone, like every other program)
+        plans = c04_stmt.session_plan(rng2, args.tier)
+        sess = []     # per plan: [index into progs]
+        for si, kinds in enumerate(plans):
+            ids = []
+            for j, kind in enumerate(kinds):
+                if rng2.random() < 0.12:
+                    src, tail, st, used = c04_stmt.gen_chunked(rng2, pool, args.tier, small_wide=True, end_kind=kind)
+                else:
+                    src, tail, st = gen_program(rng2, "small", end_kind=kind)
+                    used = []
+                ids.append(len(progs))
+                progs.append((src, tail, st, "sess:%d:%d:%s" % (si, j, kind), used))
+            sess.append(ids)
         for i in range(n_prog):
             sc = "small" if i % 10 < 6 else ("medium" if i % 10 < 9 else "large")
-            if args.tier == "quick" and sc == "large" and i % 30 != 9:
+            if quick and sc == "large" and i % 30 != 9:
                 sc = "medium"
             src, tail, st = gen_program(rng, sc)
-            progs.append((src, tail, st, "gen:%d:%s" % (i, sc)))
-        for idx, (src, tail, st, tag) in enumerate(progs):
+            progs.append((src, tail, st, "gen:%d:%s" % (i, sc), []))
+        alone = {}
+        for idx, (src, tail, st, tag, used) in enumerate(progs):
             f = os.path.join(wd, "p%d.asm" % idx)
             open(f, "w").write(src)
             pf = os.path.join(wd, "p%d.p" % idx)
-            rc, so, se = common.run_tool(bdir, "asl", ["-q", "-i", os.path.join(common.REPO, "include"), f, "-o", pf], wd, timeout=120)
+            rc, so, se = common.run_tool(bdir, "asl", ["-q", "-i", inc, f, "-o", pf], wd, timeout=120)
             if rc != 0 or not os.path.exists(pf):
                 agg["asl_rejected"] += 1
                 # a valid data-only program must assemble
-                spec_fail.append(dict(tag=tag, why="asl rejected a valid data program: rc=%s %s" % (rc, (so + se).decode(errors="replace")[-400:]), source=src))
+                spec_fail.append(dict(tag=tag, why="asl rejected a valid data program: rc=%s %s" % (rc, (so + se).decode(errors="replace")[-400:]), source=src,
+                                      files={n: pool.files[n].hex() for n in used}))
                 continue
             fb = open(pf, "rb").read()
             os.unlink(pf)
             os.unlink(f)
+            alone[idx] = fb
             reqs.append(fb.hex() + " " + tail)
-            metas.append((src, tail, st, tag))
+            metas.append((src, tail, st, tag, used))
             for k in st:
                 agg[k] = agg.get(k, 0) + st[k]
-            distinct.add(tail)
+            distinct.add(tail if len(tail) < 4000 else hash(tail))
         answers = common.driver("c04", reqs, timeout=3600) if ok and reqs else []
-        for (src, tail, st, tag), ans in zip(metas, answers):
-            kv = dict(x.split("=", 1) for x in ans.split() if "=" in x)
+        for (src, tail, st, tag, used), ans in zip(metas, answers):
+            kv = verdict_fields(ans)
             agg["records"] += int(kv.get("nrec", 0))
+            agg["l1_" + kv.get("l1", "?")] = agg.get("l1_" + kv.get("l1", "?"), 0) + 1
             if len(samples) < 3 and st["emits"] >= 2:
                 samples.append(dict(tag=tag, source=src[:600], verdict={k: v for k, v in kv.items() if k != "modelfile"}))
-            if kv.get("parse") != "ok" or kv.get("cells") != "eq" or kv.get("consistent") != "ok":
-                spec_fail.append(dict(tag=tag, why="spec check on the real code file failed: " + " ".join("%s=%s" % (k, v) for k, v in kv.items() if k != "modelfile"), source=src, request_tail=tail))
+            elif tag in ("binclude:0", "rept:0") or tag.startswith("sess:0:0"):
+                samples.append(dict(tag=tag, source=src[:600], verdict={k: v for k, v in kv.items() if k != "modelfile"}))
+            files = {n: pool.files[n].hex() for n in used}
+            if not spec_ok(kv):
+                f = dict(tag=tag, why="spec check on the real code file failed: " + short(kv), source=src, request_tail=tail, files=files)
+                spec_fail.append(f)
             elif kv.get("model") != "eq":
-                corr_fail.append(dict(tag=tag, why="real code file differs from the L1 model's file (image still as specified)", source=src, request_tail=tail, model_file=kv.get("modelfile", "")[:4000]))
+                corr_fail.append(dict(tag=tag, why="real code file differs from the model's file (image still as specified)", source=src, request_tail=tail, files=files, model_file=kv.get("modelfile", "")[:4000]))
             if kv.get("l2") != "eq":
                 proof_problems.append("model-internal: L1 file != serialise(L2) on " + tag)
 
+        # ---- several sources in one asl call: every order, both ways of naming the outputs, with / without further passes
+        sreqs = []
+        smetas = []
+        for si, ids in enumerate(sess):
+            if any(i not in alone for i in ids):
+                continue
+            members = [("s%d_%d" % (si, j), progs[i][0]) for j, i in enumerate(ids)]
+            for oi, order in enumerate(c04_stmt.orders_of(rng2, len(ids), args.tier)):
+                style = "default" if (si + oi) % 2 == 0 else "dash_o"
+                extra = 1 if (si + oi) % 4 == 3 else 0
+                rc, out, pbs = c04_stmt.run_session(bdir, wd, "j", members, order, style, extra)
+                agg["session_runs"] = agg.get("session_runs", 0) + 1
+                names = [members[i][0] + ".asm" for i in order]
+                kinds = [progs[ids[i]][3].split(":")[-1] for i in order]
+                info = dict(tag="session:%d:order=%s:%s:extra_passes=%d" % (si, "".join(map(str, order)), style, extra),
+                            command="asl -q -i <include> " + " ".join(names) + ("" if style == "default" else " -o <one per source>"),
+                            ends=kinds, sources=[members[i][1] for i in order], names=names,
+                            tails=[progs[ids[i]][1] for i in order], style=style, extra_passes=extra,
+                            source="".join("; ---- %s (%s)\n%s" % (n, k, members[i][1]) for n, k, i in zip(names, kinds, order)),
+                            files={n: pool.files[n].hex() for i in order for n in progs[ids[i]][4]})
+                if rc != 0 or any(b is None for b in pbs):
+                    spec_fail.append(dict(info, why="joint run of sources that assemble alone failed: rc=%s %s" % (rc, out[-400:])))
+                    continue
+                agg["session_files"] = agg.get("session_files", 0) + len(pbs)
+                tails = [t + (" p:%d" % extra if extra else "") for t in info["tails"]]
+                sreqs.append(" | ".join(b.hex() + " " + t for b, t in zip(pbs, tails)))
+                smetas.append((info, [pbs[k] == alone[ids[i]] for k, i in enumerate(order)]))
+                distinct.add(("session", si, order, style, extra))
+        sanswers = common.driver("c04s", sreqs, timeout=3600) if ok and sreqs else []
+        for (info, same), ans in zip(smetas, sanswers):
+            parts = ans.split(" | ")
+            for k, part in enumerate(parts):
+                kv = verdict_fields(part)
+                where = "code file %d (%s, source ends: %s)" % (k + 1, info["names"][k][:-4] + ".p", info["ends"][k])
+                if not spec_ok(kv):
+                    spec_fail.append(dict(info, file_index=k, why="%s of `%s` is not what its own source specifies: %s" % (where, info["command"], short(kv))))
+                elif kv.get("model") != "eq":
+                    corr_fail.append(dict(info, file_index=k, why="%s differs from the session model's file (still as specified): %s" % (where, short(kv))))
+                elif not same[k]:
+                    corr_fail.append(dict(info, file_index=k, why="%s is not byte-identical to the file of the same source assembled alone" % where))
+                if kv.get("l2") != "eq":
+                    proof_problems.append("model-internal: L1 file != serialise(L2) on " + info["tag"])
+
     res.coverage = common.proof_coverage(audit, "C04", [
         "translate/tables.py (Granularity table, fileformat.h constants via compiled dumper)",
-        "correspondence: real asl vs Model.CodeFile L1 on generated programs (differential test)"])
+        "correspondence: real asl vs Model.CodeFile L1 on generated programs (differential test)",
+        "the C library's fread/fseek on a regular file behave like List.drop/List.take (BINCLUDE)"])
     res.coverage.update(
-        evaluations=len(reqs), distinct_nontrivial=len([t for t in distinct if t.count("e:") >= 1]),
-        rule="random data/reservation/ORG/SEGMENT/CPU/END programs over 7 targets (gran 1/2/4), lengths from pools around 511/512/513, 1023..1025, 65534/65535; non-trivial = at least one emitting statement; distinct by event list",
+        evaluations=len(reqs) + sum(len(m[1]) for m in smetas), distinct_nontrivial=len(distinct),
+        rule="random data/reservation/ORG/SEGMENT/CPU/END programs over 9 targets (gran 1/2/4), lengths from pools around 511/512/513, 1023..1025, 65534/65535; "
+             "BINCLUDE of generated files (0..140000 bytes; whole / offset / offset+length) at chosen fill levels of the open record on 6 byte-addressed targets with 16 MiB..4 GiB address spaces; "
+             "REPT bodies and nested DUP groups; joint runs of 2..4 sources ending in END <address> / END / nothing in every order (at most 6 per set in the quick tier), output names by default and by -o, "
+             "with and without a forced further pass; non-trivial = at least one emitting statement; distinct by event list / by (source set, order, naming, passes)",
         samples=samples, distribution=agg)
     res.assumptions = ["generator's byte encoding of data statements (little-endian words on PIC/C3x) is the oracle for what the source specifies",
-                       "creator string is not compared (taken from the real file)"]
-    return common.conclude(res, proof_problems, spec_fail, corr_fail, len(reqs))
+                       "creator string is not compared (taken from the real file)",
+                       "where the answer says l1=thm the byte machine's file was taken from theorem C04_refine (= serialised record machine) instead of executing it"]
+    return common.conclude(res, proof_problems, spec_fail, corr_fail, len(reqs) + len(sreqs))
 
 
 def replay(args):
     import json
     d = json.load(open(args.replay))
     print(json.dumps({k: (v if len(str(v)) < 2000 else str(v)[:2000] + "...") for k, v in d.items()}, indent=1))
-    if "source" in d:
-        bdir = common.repo_build("hooks")
-        with common.Workdir("c04r") as wd:
+    bdir = common.repo_build("hooks")
+    inc = os.path.join(common.REPO, "include")
+    with common.Workdir("c04r") as wd:
+        for n, hx in (d.get("files") or {}).items():
+            open(os.path.join(wd, n), "wb").write(bytes.fromhex(hx))
+        if "sources" in d:
+            members = list(zip([n[:-4] for n in d["names"]], d["sources"]))
+            rc, out, pbs = c04_stmt.run_session(bdir, wd, "j", members, list(range(len(members))), d["style"], d["extra_passes"])
+            print("asl rc =", rc, out[-500:])
+            if all(b is not None for b in pbs):
+                tails = [t + (" p:%d" % d["extra_passes"] if d["extra_passes"] else "") for t in d["tails"]]
+                ans = common.driver("c04s", [" | ".join(b.hex() + " " + t for b, t in zip(pbs, tails))])[0]
+                for n, part in zip(d["names"], ans.split(" | ")):
+                    print(n, short(verdict_fields(part)))
+        elif "source" in d:
             f = os.path.join(wd, "r.asm")
             open(f, "w").write(d["source"])
-            rc, so, se = common.run_tool(bdir, "asl", ["-q", "-i", os.path.join(common.REPO, "include"), f, "-o", os.path.join(wd, "r.p")], wd)
+            rc, so, se = common.run_tool(bdir, "asl", ["-q", "-i", inc, f, "-o", os.path.join(wd, "r.p")], wd)
             print("asl rc =", rc, (so + se).decode(errors="replace")[-500:])
             if os.path.exists(os.path.join(wd, "r.p")) and "request_tail" in d:
                 fb = open(os.path.join(wd, "r.p"), "rb").read()
-                print(common.driver("c04", [fb.hex() + " " + d["request_tail"]])[0][:300])
+                print(short(verdict_fields(common.driver("c04", [fb.hex() + " " + d["request_tail"]])[0])))
     return 0
